@@ -118,6 +118,7 @@ def _(c):
 
 @contract("__init__.ExcludeRegionPlugin.on_api_get")
 def _(c):
+    c.native_incomplete = True        # flask.jsonify needs an application context
     c.pre(lambda b: {"self": mk_plugin(b, minimal=True), "args": {"request": b.opaque("request")}})
     c.modifies()
     c.ensures("C13.get-returns-current-list",
